@@ -209,9 +209,9 @@ def vm_crosscheck(pairs, workdir):
 
 
 # ------------------------------------------------------------------ implementation side
-def run_impl(prop, cases, workdir, jobs=JOBS, timeout_s=None, cov_out=None):
+def run_impl(prop, cases, workdir, jobs=JOBS, timeout_s=None, cov_out=None, _retry=False):
     """Run the implementation on the cases in child processes. Returns list of records (same order)."""
-    n = max(1, min(jobs, (len(cases) + 199) // 200))
+    n = max(1, min(jobs, (len(cases) + 199) // 200 if not _retry else len(cases)))
     shards = [cases[i::n] for i in range(n)]
     procs = []
     for k, sh in enumerate(shards):
@@ -224,6 +224,10 @@ def run_impl(prop, cases, workdir, jobs=JOBS, timeout_s=None, cov_out=None):
         env.pop("BIBTEXPARSER_VERIF", None)
         env["BIBTEXPARSER_VERIF"] = "1"
         env.pop("VERIF_COV_OUT", None)
+        env.pop("VERIF_TIMEOUT_FACTOR", None)
+        if _retry:
+            env["VERIF_TIMEOUT_FACTOR"] = "6"
+            env["VERIF_SECOND_PASS"] = "0"
         if cov_out and (k == 0 or os.environ.get("VERIF_COV_ALL", "1") != "0"):
             # statement coverage of /repo is measured on every shard and merged (VERIF_COV_ALL=0: first shard only)
             env["VERIF_COV_OUT"] = cov_out if k == 0 else "%s.%d" % (cov_out, k)
@@ -242,7 +246,11 @@ def run_impl(prop, cases, workdir, jobs=JOBS, timeout_s=None, cov_out=None):
             for r in recs:
                 if r["id"] in second:
                     r["second_pass"] = second[r["id"]]
-        if p.returncode != 0 or len(recs) != len(sh):
+        if p.returncode == 75:
+            # the child stopped itself after a per-case timeout (impl_runner.py): the rest of its shard is evaluated below
+            for c in sh[len(recs):]:
+                recs.append({"id": c["id"], "crash": "harness timeout: not evaluated, the child stopped after an earlier timeout"})
+        elif p.returncode != 0 or len(recs) != len(sh):
             # the child died: mark the remaining cases as crashed (this is itself a finding for C01-like properties)
             for c in sh[len(recs):]:
                 recs.append({"id": c["id"], "crash": "impl child exited rc=%s: %s" % (p.returncode, (out or "")[-400:])})
@@ -250,7 +258,32 @@ def run_impl(prop, cases, workdir, jobs=JOBS, timeout_s=None, cov_out=None):
     res = [None] * len(cases)
     for k, recs in enumerate(recs_by_shard):
         res[k::n] = recs
+    if not _retry:
+        # A per-case time limit that fires because the MACHINE is busy (other checks running, the coverage tracer, a child whose
+        # tracer lock was left held by an earlier timeout) is not a hang of the library.  Every timed-out case is evaluated again
+        # in fresh children, without the tracer, with six times the limit; only a case that times out again is reported so.
+        late = [i for i, r in enumerate(res) if _timed_out(r)]
+        if late:
+            sub = os.path.join(workdir, "retry")
+            os.makedirs(sub, exist_ok=True)
+            again = run_impl(prop, [cases[i] for i in late], sub, jobs=jobs, _retry=True)
+            for i, r in zip(late, again):
+                r.setdefault("tags", [])
+                if isinstance(r.get("tags"), list):
+                    r["tags"] = r["tags"] + ["harness:re-evaluated-after-timeout"]
+                res[i] = r
+            log("impl: %d case(s) hit the per-case time limit and were evaluated again (fresh children, no tracer, 6x the limit): %d still time out"
+                % (len(late), sum(1 for r in again if _timed_out(r))))
     return res
+
+
+def _timed_out(r):
+    if r is None:
+        return False
+    if "timeout" in str(r.get("crash", "")).lower():
+        return True
+    o = r.get("oracle") or {}
+    return "Timeout" in str(o.get("detail", "")) or "Timeout" in str(r.get("summary", ""))
 
 
 # ------------------------------------------------------------------ the check
